@@ -47,11 +47,32 @@ type c08FTRound struct {
 type c08RunRound struct {
 	ID             int      `json:"id"`
 	Rules          string   `json:"rules"`
-	Files          []string `json:"files"`  // import paths of one-file target packages
+	Files          []string `json:"files"`  // import paths of one-file target packages (labels of the files of Pkgs when Pkgs is set)
 	Assign         [][]int  `json:"assign"` // per worker: indices into Files, run in this order
 	StateMode      string   `json:"state_mode"`
 	SharedUniverse bool     `json:"shared_universe"`
 	Kinds          []string `json:"kinds"`
+	// "typeid" rounds (gen_typeid.go): the targets are the Targets files of these multi-file packages, each package
+	// type-checked once under Path (several packages may share a path), in this order; Files holds their labels
+	Pkgs     []c08PkgRef   `json:"pkgs,omitempty"`
+	TidRules []tidRuleInfo `json:"tid_rules,omitempty"`
+}
+
+type c08PkgRef struct {
+	Path    string   `json:"path"`
+	Dir     string   `json:"dir"`
+	All     []string `json:"all"`     // every file of the package
+	Targets []string `json:"targets"` // the files that are analysed
+}
+
+// c08Narrow: a sequential replay that reproduces a difference of a typeid round with one rule (atom)
+type c08Narrow struct {
+	Earlier string   `json:"earlier"`
+	Probe   string   `json:"probe"`
+	Kinds   string   `json:"kinds"`
+	Rule    string   `json:"rule"`
+	Lone    []string `json:"reports_only_in_lone_run"`
+	After   []string `json:"reports_only_after_earlier_file"`
 }
 
 // c08AdapterRound: N goroutines call analyzer.Analyzer.Run on hand-built passes while the process-wide
@@ -101,6 +122,7 @@ type c08RunOut struct {
 	Baseline  []string   `json:"baseline"`   // per file: outcome of a lone run on a fresh engine
 	Workers   [][]string `json:"workers"`    // per worker, per assigned file: outcome under concurrency
 	WarmAfter []string   `json:"warm_after"` // per file: sequential run on the shared engine afterwards
+	Narrow    *c08Narrow `json:"narrow,omitempty"`
 }
 
 type c08Out struct {
@@ -358,7 +380,31 @@ func runC08Run(spec *c08Spec, r c08RunRound) c08RunOut {
 	fset := token.NewFileSet()
 	shared := importer.ForCompiler(fset, "source", nil)
 	targets := make([]*hx.Target, len(r.Files))
+	if len(r.Pkgs) > 0 {
+		targets = targets[:0]
+		for _, p := range r.Pkgs {
+			ts, err := tidCheckPackage(p.Dir, p.Path, p.All, fset, importer.ForCompiler(fset, "source", nil))
+			if err != nil {
+				out.LoadErr = fmt.Sprintf("target package %s (%s): %v", p.Path, p.Dir, err)
+				return out
+			}
+			for _, want := range p.Targets {
+				for k, n := range p.All {
+					if n == want {
+						targets = append(targets, ts[k])
+					}
+				}
+			}
+		}
+		if len(targets) != len(r.Files) {
+			out.LoadErr = fmt.Sprintf("typeid round: %d targets for %d labels", len(targets), len(r.Files))
+			return out
+		}
+	}
 	for i, p := range r.Files {
+		if len(r.Pkgs) > 0 {
+			break
+		}
 		imp := shared
 		if !r.SharedUniverse {
 			imp = importer.ForCompiler(fset, "source", nil)
@@ -419,7 +465,64 @@ func runC08Run(spec *c08Spec, r c08RunRound) c08RunOut {
 	for _, t := range targets {
 		out.WarmAfter = append(out.WarmAfter, c08Outcome(e, t, nil))
 	}
+	if len(r.TidRules) > 0 {
+		out.Narrow = c08NarrowRound(r, targets, &out)
+	}
 	return out
+}
+
+// c08NarrowRound: when a file of a typeid round got other reports than its lone run, look for a sequential
+// replay "file A, then file B, one engine" with a single rule (atom) that shows the same dependence.
+func c08NarrowRound(r c08RunRound, targets []*hx.Target, out *c08RunOut) *c08Narrow {
+	split := func(s string) []string {
+		if s == "" {
+			return nil
+		}
+		return strings.Split(s, " | ")
+	}
+	probe, got := -1, ""
+	for fi := range targets {
+		if out.WarmAfter[fi] != out.Baseline[fi] {
+			probe, got = fi, out.WarmAfter[fi]
+			break
+		}
+	}
+	for w := range r.Assign {
+		for j, fi := range r.Assign[w] {
+			if probe < 0 && out.Workers[w][j] != out.Baseline[fi] {
+				probe, got = fi, out.Workers[w][j]
+			}
+		}
+	}
+	if probe < 0 {
+		return nil
+	}
+	rs := &tidRuleSet{Src: r.Rules, Rules: r.TidRules}
+	ids := tidDiffRules(split(out.Baseline[probe]), split(got))
+	for a := range targets {
+		if a == probe {
+			continue
+		}
+		kinds, text, want, after, ok := tidNarrowRule(rs, ids, func(src string) (bool, []string, []string) {
+			e1, err := c08LoadEngine(src)
+			if err != nil {
+				return false, nil, nil
+			}
+			lone := c08Outcome(e1, targets[probe], nil)
+			e2, err := c08LoadEngine(src)
+			if err != nil {
+				return false, nil, nil
+			}
+			c08Outcome(e2, targets[a], nil)
+			seq := c08Outcome(e2, targets[probe], nil)
+			return lone != seq, split(lone), split(seq)
+		})
+		if ok {
+			onlyLone, onlyAfter := tidLineDiff(want, after)
+			return &c08Narrow{Earlier: r.Files[a], Probe: r.Files[probe], Kinds: kinds, Rule: text, Lone: onlyLone, After: onlyAfter}
+		}
+	}
+	return nil
 }
 
 func c08AnalyzerRun(t *hx.Target) string {
